@@ -4,6 +4,7 @@ from . import register
 from ..analysis import (return_variants_from, slice_const_values, backslice, comparisons, branch_of, dominated_region, closure_creation, forward_locals,
                         truth_table, table_equals, switch_targets_bool, count_nots, FLIP, NEG, upvar_operand)
 from ..facts import const_int, op_local, op_const, const_val, place_fields
+from .common import stdin_paths_body
 
 DOC = {
     'explanation': 'Necessary conditions of the selection semantics, decided on the walker and the selector: the depth guard reads a directory at nesting k iff k < --depth '
@@ -22,7 +23,7 @@ DOC = {
         'C09.R15': 'with -L a directory is walked once, so the ignore rules applied below it must not depend on the route: the ignore stack handed to a link target is a function of the target, not of the directory that holds the link (visit_link must not pass its own stack on)',
         'C09.R14': 'the directory admission test (PathSelector::matches_dir: "could something below match?") is applied to directories only: its callers are visit_dir alone - applied to an input path or a link target that is a file it asks whether `file/...` is excluded and drops files that no pattern excludes',
         'C09.R13': 'ignore files as documented: IgnoreStack::push loads .gitignore and .fdignore of a directory independently of each other (neither is looked at only when the other is absent); IgnoreStack::matches lets the deepest ignore file that says anything decide (reverse iteration, a whitelist `!` match ends the search with "not ignored"), instead of "ignored by any level"',
-        'C09.R12': 'input paths read from the standard input (--stdin) are taken as bytes, like paths given as arguments (OsString): no UTF-8-only reader (lines / read_line / read_to_string / String::from_utf8 + unwrap) between stdin and Path; an empty line is not a path (it would mean the working directory)',
+        'C09.R12': 'input paths read from the standard input (--stdin) are taken as bytes, like paths given as arguments (OsString): no UTF-8-only reader (lines / read_line / read_to_string / String::from_utf8 + unwrap) between stdin and Path; an empty line is not a path (it would mean the working directory), an empty argument is rejected, and a line with a NUL byte is filtered out before Path::from (which unwraps CString::new) sees it',
         'C09.R11': 'marking an entry as visited (follow_links) does not cut off routes that would get further: the mark is made after the route-dependent .gitignore test, and either it records the nesting level (a directory reached again at a smaller level is read again) or it is made only after the --depth test passed; directories are marked in visit_dir after the route-specific pruning tests; a smaller level always re-visits (input paths are level 0)',
         'C09.R10': 'a --regex pattern is never joined with anchors (^...$) or with another pattern (base directory + relative pattern) without a grouping step for a top-level alternation: `^a|b$` means (^a)|(b$), which selects files that are not matched fully and makes the fixed prefix used for pruning the prefix of the first alternative only',
         'C09.R9': 'matches_dir prunes a directory because of an --exclude pattern only through a predicate that holds for the whole subtree: the regex match of the directory path is gated by a test that the pattern source ends with `.*` (`**`); a bare prefix or full match of the directory path is not conservative (`--exclude o` would prune `other/`)',
@@ -52,6 +53,7 @@ def run(ctx):
     r12(ctx)
     r12b(ctx)
     r12c(ctx)
+    r12d(ctx)
     r13(ctx)
     r14(ctx)
     r15(ctx)
@@ -243,8 +245,9 @@ def r13(ctx):
 def r12(ctx):
     rule = 'C09.R12'
     lib = ctx.lib
-    b = ctx.need_body(rule, 'config::GroupConfig::input_paths')
+    b = stdin_paths_body(lib)
     if b is None:
+        ctx.missing(rule, 'config::GroupConfig::input_paths')
         return
     rd = b.calls(r'^std::io::stdin$')
     if not ctx.floor(rule, 'stdin() in input_paths', len(rd), 1, b.where()):
@@ -259,7 +262,7 @@ def r12(ctx):
 def r12b(ctx):
     rule = 'C09.R12'
     lib = ctx.lib
-    b = lib.body('config::GroupConfig::input_paths')
+    b = stdin_paths_body(lib)
     if b is None:
         return
     bodies = [b] + [lib.body(c) for c in lib.closures_of(b.path)]
@@ -268,6 +271,32 @@ def r12b(ctx):
     ctx.check(bool(flt) and bool(emp), rule, b.path + '|no-empty-line', (flt[0].where() if flt else b.where()), 'empty lines of the stdin list are filtered out',
               'every line of the stdin list becomes a path, and an empty string becomes `.`: a blank line (or `echo "$files" | fclones group --stdin` with an empty variable) makes fclones scan the whole '
               'working directory, and files that were never selected are reported as duplicates')
+
+
+def r12d(ctx):
+    rule = 'C09.R12'
+    lib = ctx.lib
+    b = stdin_paths_body(lib)
+    if b is None:
+        return
+    flt = [c for c in b.calls(r'Iterator::(filter|filter_map|skip_while|take_while)$') if backslice(b, [c.args[0]]).has_call(r'^std::io::stdin$')]
+    ok = False
+    where = flt[0].where() if flt else b.where()
+    for cp in lib.closures_of(b.path):
+        x = lib.body(cp)
+        for c in x.calls(r'::contains$|memchr|Iterator::(any|all|position)$'):
+            sub = [x] + [lib.body(y) for y in lib.closures_of(x.path)]
+            vals = []
+            for a in c.args:
+                vals += [str(v) for v in slice_const_values(lib, backslice(x, [a]))]
+            for y in sub[1:]:
+                for cmp in comparisons(y):
+                    vals += [str(v) for v in slice_const_values(lib, backslice(y, [cmp.a])) + slice_const_values(lib, backslice(y, [cmp.b]))]
+            if any(re.match(r'^0(_u8)?$', v) for v in vals) and any(k.bb == c.bb for k in backslice(x, [{'c': [0, []]}]).calls):
+                ok, where = True, c.where()
+    ctx.check(bool(flt) and ok, rule, b.path + '|no-nul-line', where, 'a line of the stdin list that contains a NUL byte is filtered out before it becomes a path',
+              'every non-empty line of the stdin list becomes a Path, and Path::from unwraps CString::new: one line containing a NUL byte (`find -print0 | fclones group --stdin`, a corrupt list) '
+              'aborts the whole run with a panic (exit 101, no report) instead of leaving out that entry alone')
 
 
 def r12c(ctx):
